@@ -54,7 +54,8 @@ ASSUMPTIONS = [
 KINDS = c08.KINDS
 STATEFUL = {'echo_get', 'echo_post', 'echo_put', 'echo_head', 'upload', 'raise_resp', 'gen', 'crash', 'teapot', 'chunked_ok',
             'hookcrash', 'raise_err'}
-FAILING = ['notfound', 'notallowed', 'json404', 'badchunk', 'big', 'badpath', 'crash', 'hookcrash', 'raise_err', 'teapot']
+FAILING = ['notfound', 'notallowed', 'json404', 'badchunk', 'big', 'badpath', 'crash', 'hookcrash', 'raise_err', 'teapot',
+           'badchunk_json', 'badjson', 'badchunk', 'big']
 RETAIN_MAX = 6
 
 
@@ -123,6 +124,11 @@ def run_case(case):
             if r.escaped is not None:
                 violation(res, 'C09:escape', f'request #{k} ({sp["kind"]} {sp["m"]}): exception escaped app(): '
                                              f'{type(r.escaped).__name__}: {r.escaped}')
+                continue
+            probs = c08.wellformed(r, c08.environ_method(sp))
+            if probs:
+                violation(res, f'C09:malformed-response:{sp["kind"]}',
+                          f'request #{k} ({sp["kind"]} {sp["m"]}): ' + '; '.join(probs))
                 continue
             a_canon, a_notes, _ = c08.restart_reference(sp, cfg)
             if canon != a_canon:
